@@ -14,6 +14,9 @@ pub mod lfo;
 pub mod modsys;
 pub mod tweener;
 pub mod spatial;
+pub mod psm;
+pub mod static_sound;
+pub mod transport;
 pub mod units;
 pub mod wav;
 
@@ -37,6 +40,10 @@ pub fn gen(suite: &str, rng: &mut Rng, n: usize, thorough: bool, stats: &mut Sta
 		"clocktear" => clocktear::gen(rng, n, thorough, stats),
 		"spatial" => spatial::gen(rng, n, thorough, stats),
 		"wav" => wav::gen(rng, n, thorough, stats),
+		"transport" => transport::gen(rng, n, thorough, stats),
+		"psm" => psm::gen(rng, n, thorough, stats),
+		"static" => static_sound::gen(rng, n, thorough, stats),
+		"static_ood" => static_sound::gen_ood(rng, n, thorough, stats),
 		_ => panic!("unknown suite {}", suite),
 	}
 }
@@ -56,6 +63,9 @@ pub fn run(suite: &str, ops: &[String]) -> Vec<String> {
 		"clocktear" => clocktear::run(ops),
 		"spatial" => spatial::run(ops),
 		"wav" => wav::run(ops),
+		"transport" => transport::run(ops),
+		"psm" => psm::run(ops),
+		"static" | "static_ood" => static_sound::run(ops),
 		_ => panic!("unknown suite {}", suite),
 	}
 }
